@@ -18,6 +18,8 @@ func init() {
 			"every exit of a walk function that signals an error (return r.err()) has recorded an error on all paths in the validation pass; every leaf walker tests null-ness before it tests the JSON kind and, on the null edge, either renders null under Nullable or records the non-null violation; the JSON tree is nulled only in the validation pass (two idempotent array sites frozen); " +
 			"the renderer's bookkeeping stacks (response path, runtime type names, enclosing type names) are balanced on every exit of every walk function. It does not decide JSON validity, key-set equality or projection equality (value level).",
 		Mutants: []Mutant{
+			{Name: "kind-mismatch error of a list recorded with the already pushed path (the repaired defect F25)", File: "v2/pkg/engine/resolve/resolvable.go", Rule: "C02-R10", Key: "walkArray/addError-path-not-already-pushed",
+				Old: "\t\tr.addError(\"Array cannot represent non-array value.\", nil)", New: "\t\tr.addError(\"Array cannot represent non-array value.\", arr.Path)"},
 			{Name: "nested list nulls itself through its empty path (the repaired defect F24)", File: "v2/pkg/engine/resolve/resolvable.go", Rule: "C02-R9", Key: "walkArray/set-null-needs-a-path",
 				Old: "\t\t\tif arr.Nullable && len(arr.Path) > 0 {", New: "\t\t\tif arr.Nullable {"},
 			{Name: "errors member of a subscription event stored whatever its JSON kind (the repaired defect F23)", File: "v2/pkg/engine/resolve/resolvable.go", Rule: "C02-R8", Key: "InitSubscription/errors-assigned-an-array",
@@ -55,6 +57,7 @@ var c02Recorders = map[string]bool{
 
 func runC02(r *fw.Run) {
 	defer c02CopyPreserves(r)
+	defer c02ErrorPathNotDoubled(r)
 	defer c02SetNullNeedsAPath(r)
 	defer c02ErrorsIsAnArray(r)
 	defer c02CommaFlags(r)
@@ -806,4 +809,84 @@ func c02SetNullNeedsAPath(r *fw.Run) {
 		in.Run(nil)
 	}
 	r.Expect("C02-R9", "SetNull calls with the path of an Object/Array node", n, 3)
+}
+
+// c02ErrorPathNotDoubled (R10): the error recorders that take a field path (addError, addErrorWithCodeAndPath, …) push that
+// path on the response-path stack themselves. They are therefore never called with a path P while P is already pushed by
+// the calling walk function (between pushNodePathElement(P) and its pop) — the error would carry the last path segment
+// twice, which is not the response path of the offending position.
+func c02ErrorPathNotDoubled(r *fw.Run) {
+	p := r.Prog
+	r.Rule("C02-R10", "an error recorder that pushes its fieldPath argument itself is never called with a path that the calling walk function has currently pushed (the reported path is the response path of the offending position, not that path with its last segment doubled)")
+	info := p.Pkg("resolve").TypesInfo
+	// recorders: methods of Resolvable with a []string parameter that they hand to pushNodePathElement
+	recorders := map[*types.Func]int{}
+	for _, fi := range p.Funcs("resolve") {
+		if fi.Decl.Recv == nil || !strings.HasPrefix(fi.Name(), "Resolvable.") || fi.Obj.Name() == "pushNodePathElement" {
+			continue
+		}
+		sig := fi.Obj.Type().(*types.Signature)
+		fw.WalkAll(fi.Decl.Body, func(nd ast.Node) bool {
+			if c, ok := nd.(*ast.CallExpr); ok && fw.CallIs(info, c, "resolve", "Resolvable.pushNodePathElement") && len(c.Args) == 1 {
+				if id, ok := ast.Unparen(c.Args[0]).(*ast.Ident); ok {
+					for i := 0; i < sig.Params().Len(); i++ {
+						if info.Uses[id] == sig.Params().At(i) {
+							recorders[fi.Obj] = i
+						}
+					}
+				}
+			}
+			return true
+		})
+	}
+	n := 0
+	for _, fi := range p.Funcs("resolve") {
+		if fi.Decl.Recv == nil || !strings.HasPrefix(fi.Name(), "Resolvable.") {
+			continue
+		}
+		if _, isRec := recorders[fi.Obj]; isRec {
+			continue
+		}
+		pushes := false
+		fw.WalkAll(fi.Decl.Body, func(nd ast.Node) bool {
+			if c, ok := nd.(*ast.CallExpr); ok && fw.CallIs(info, c, "resolve", "Resolvable.pushNodePathElement") {
+				pushes = true
+			}
+			return true
+		})
+		if !pushes {
+			continue
+		}
+		in := fw.NewInterp(fi)
+		in.H = fw.Hooks{
+			Node: func(nd ast.Node, st *fw.State) {
+				c, ok := nd.(*ast.CallExpr)
+				if !ok {
+					return
+				}
+				if fw.CallIs(info, c, "resolve", "Resolvable.pushNodePathElement") && len(c.Args) == 1 {
+					st.Set("pushed:" + fw.ExprKey(info, c.Args[0]))
+					return
+				}
+				if fw.CallIs(info, c, "resolve", "Resolvable.popNodePathElement") && len(c.Args) == 1 {
+					st.Kill("pushed:" + fw.ExprKey(info, c.Args[0]))
+					return
+				}
+				fn := fw.Callee(info, c)
+				idx, isRec := recorders[fn]
+				if !isRec || idx >= len(c.Args) || !in.Final() {
+					return
+				}
+				arg := c.Args[idx]
+				if id, isID := ast.Unparen(arg).(*ast.Ident); isID && id.Name == "nil" {
+					return
+				}
+				n++
+				r.Check(!st.May("pushed:"+fw.ExprKey(info, arg)), "C02-R10", fi.Name()+"/"+fn.Name()+"-path-not-already-pushed#"+itoa(n), p.Pos(c.Pos()), fn.Name()+"(…, "+types.ExprString(arg)+") in "+fi.Name()+" is called while "+types.ExprString(arg)+" is not on the path stack",
+					"the recorder pushes "+types.ExprString(arg)+" itself, and the walk function has already pushed it: the error carries the last path segment twice (e.g. [\"o\",\"o\"]) — not the response path of the offending position")
+			},
+		}
+		in.Run(nil)
+	}
+	r.Expect("C02-R10", "calls of path-pushing error recorders in walk functions that push a path", n, 1)
 }
